@@ -198,6 +198,9 @@ def locate : List Nat → Nat → Nat → Option (Nat × Nat)
   | [], _, _ => none
   | l :: t, p, g => if g < l then some (p, g) else locate t (p + 1) (g - l)
 
+/-- Python's `a % b` on integers (the result takes the sign of the divisor) -/
+def pyMod (a b : Int) : Int := if 0 < b then a.emod b else a.fmod b
+
 /-- python list indexing `parts[ind]` with negative wrap -/
 def pyListIdx (nparts : Nat) (ind : Int) : Except Err Nat :=
   normInt nparts ind
@@ -255,7 +258,7 @@ def concatHead (lens : List Nat) (ix : Ix) : Except Err (Bool × List (Nat × Na
         let chunks ← inds.mapM fun ind => do
           let p ← pyListIdx nparts ind
           let off : Int := ((starts.getD p 0 : Nat) : Int)
-          let cs : Int := if s ≥ off then s - off else (s - off).emod st
+          let cs : Int := if s ≥ off then s - off else pyMod (s - off) st
           runPart lens p (.slice (some cs) (some (e - off)) (some st))
         pure (false, chunks.flatten)
   | .mask m =>
@@ -291,5 +294,53 @@ def concatSpec (lens : List Nat) (ix : Ix) : Except Err (Bool × List (Nat × Na
       | some pr => .ok pr
       | none => .error .index
     pure (false, r)
+
+/-! ConcatenatedLazyIndexer, the whole request (head and tail axes).  The tail key is handed
+    unchanged to every visited part; for slice and mask heads every chunk is reshaped to
+    `(-1,) + shape_tails` before `np.concatenate`, for a list head the parts' answers are scattered
+    into `np.empty(final_shape)`, a scalar head passes the key straight to its part.  Tail keys are
+    modelled in resolved form as position lists (`Sel.many`); an integer on a tail axis is outside
+    this model (the real reshape keeps it as an axis of length 1: recorded finding, covered by the
+    differential run only). -/
+
+/-- `len(indexer)` of every part -/
+def partLens {α} (parts : List (NDArr α)) : List Nat := parts.map fun a => a.shape.headD 0
+
+/-- the concatenation of `parts` along axis 0 as a functional array (the spec's source) -/
+def concatArr {α} [Inhabited α] (parts : List (NDArr α)) (tailShape : List Nat) : NDArr α :=
+  let lens := partLens parts
+  { shape := total lens :: tailShape
+    get := fun js => match js with
+      | [] => default
+      | g :: t => match locate lens 0 g with
+        | some (p, k) => (parts.getD p ⟨[], fun _ => default⟩).get (k :: t)
+        | none => default }
+
+/-- result of the whole request: output row `j` is the row `(p, k) = pairs[j]` answered by part `p`
+    with the tail key applied by that part -/
+def concatFull {α} [Inhabited α] (parts : List (NDArr α)) (ix : Ix) (tails : List (List Nat)) :
+    Except Err (NDArr α) := do
+  let lens := partLens parts
+  let tsel := tails.map Sel.many
+  let (scalar, pairs) ← concatHead lens ix
+  let part := fun (p : Nat) => parts.getD p ⟨[], fun _ => default⟩
+  if scalar then
+    let pr := pairs.headD (0, 0)
+    pure (oindexSel (part pr.1) (.one pr.2 :: tsel))
+  else
+    -- `.reshape((-1,) + shape_tails)` of a chunk: ValueError as soon as one tail selection is empty
+    let reshapes := match ix with | .slice _ _ _ => true | .mask _ => true | _ => false
+    if reshapes && tails.any (·.isEmpty) then throw Err.value
+    pure { shape := pairs.length :: selShape tsel
+           get := fun js => match js with
+             | [] => default
+             | j :: t => let pr := pairs.getD j (0, 0); (part pr.1).get (pr.2 :: pickCoords tsel t) }
+
+/-- spec: the same key applied to the concatenation under outer indexing -/
+def concatFullSpec {α} [Inhabited α] (parts : List (NDArr α)) (tailShape : List Nat) (ix : Ix)
+    (tails : List (List Nat)) : Except Err (NDArr α) := do
+  let lens := partLens parts
+  let s ← ix.resolve (total lens)
+  pure (oindexSel (concatArr parts tailShape) (s :: tails.map Sel.many))
 
 end LazyIx
